@@ -118,7 +118,7 @@ def _run(sx, L, types, max_size, ops_allowed, kinds, DataContainer, Attribute):
     tname = _pick(sx, "type", types)
     arity = 1 + sx.choice("arity", 2)
     size0 = 1 + sx.choice("size0", max_size)
-    custom_default = arity == 1 and sx.flag("custom_default")
+    custom_default = sx.flag("custom_default")       # (a single value, also for vector attributes: every component)
     default = None
     if custom_default:
         default = dict(bool=True, int=7, float=2.5, complex=3j, str="z")[tname]
